@@ -209,3 +209,33 @@ Print Assumptions C05T_response_unpack_fuel.
 Theorem C05T_request_unpack_fuel : forall pkg, request_unpack env0 rq pkg <> DFuel.
 Proof. exact request_unpack_fuel. Qed.
 Print Assumptions C05T_request_unpack_fuel.
+
+(* ---- the CURRENT source of UniAttribute.Encode writes the model's bytes ----
+   Gen/Translated.v is regenerated from tars/protocol/tup/tup.go on every run (the map head with the count, the five
+   writes per entry; their callees are the translated codec.Buffer methods). Run over the entries in the order Go's map
+   iteration yields them, the translated statements append exactly tup_encode m and return a nil error. *)
+From TarsV Require Import Xlate.GoSem Gen.Translated Xlate.TupEquiv.
+Theorem C05T_source_encode_entry : forall err0 k v out,
+  tr_tup_Encode_entry err0 k v out = Next (out ++ enc_entry (k, v), false).
+Proof. exact TupEquiv.tr_tup_Encode_entry_equiv. Qed.
+Print Assumptions C05T_source_encode_entry.
+Theorem C05T_source_encode : forall m out, go_tup_encode m out = Next (out ++ tup_encode m, false).
+Proof. exact TupEquiv.go_tup_encode_equiv. Qed.
+Print Assumptions C05T_source_encode.
+
+(* ---- the CURRENT source of UniAttribute.Decode computes the model's decoder on every input ----
+   tr_tup_Decode is the whole function (the *codec.Reader parameter is the reader state, u.data the list of insertions
+   in order; its callees are the translated codec.Reader methods). For a reader over any byte string a Go slice can hold,
+   any attribute set to decode into, and any fuel from 2*len+9 on: the same status as tup_decode, the same entries added
+   in the same order (also those before an error), the reader left where the model leaves it; never a panic. *)
+From TarsV Require Import Xlate.ReaderEquiv Xlate.TupDecodeEquiv.
+Theorem C05T_source_decode : forall F bs u, bytes_ok bs -> (go_len bs <= LEN_MAX)%Z -> (fuel_for bs + 5 <= F)%nat ->
+  let o := tup_decode bs in
+  match t_stat o with
+  | TSOk => exists p', tr_tup_Decode F (Build_go_reader bs 0 0) u = Return (Build_go_reader bs p' 0, false, u ++ t_ins o) /\
+                       go_drop bs p' = t_rest o /\ (0 <= p' <= go_len bs)%Z
+  | TSErr => exists rd', tr_tup_Decode F (Build_go_reader bs 0 0) u = Return (rd', true, u ++ t_ins o)
+  | TSFuel => False
+  end.
+Proof. exact TupDecodeEquiv.tr_tup_Decode_fresh. Qed.
+Print Assumptions C05T_source_decode.
